@@ -97,7 +97,13 @@ var orgs = []orgFns{
 
 // itemKey identifies the lines that may be merged with each other: same message, same severity and same
 // call site (variant 0: plain call, 1: formatted call — two different source lines of the origin file).
-func itemKey(item, lvl, variant int) int { return item*16 + lvl*2 + variant }
+func itemKey(item, lvl, variant int, tracer bool) int {
+	k := item*32 + lvl*4 + variant*2
+	if tracer {
+		k++ // a tracer submission and a plain call are never merged either
+	}
+	return k
+}
 
 // payloads make the message texts less uniform (the logger must treat them as opaque): empty, spaces,
 // format verbs, non-ASCII, control characters, long. The payload is a function of (gid, item), so
@@ -315,8 +321,9 @@ func (c *child) Write(m log.Message, dups uint64) {
 		return
 	}
 	c.wtoks = append(c.wtoks, fmt.Sprintf("W:%s:%d", tok, dups))
-	o := fmt.Sprintf("%d:%d:%d", gid, itemKey(item, int(m.Severity()), c.siteVar[atoiSafe(strings.Split(tok, ":")[2])]), dups)
-	if es, isT := log.VerifTraceEntries(m); isT {
+	es, isT := log.VerifTraceEntries(m)
+	o := fmt.Sprintf("%d:%d:%d", gid, itemKey(item, int(m.Severity()), c.siteVar[atoiSafe(strings.Split(tok, ":")[2])], isT), dups)
+	if isT {
 		var ids []string
 		for _, e := range es {
 			_, it, ok := parseMsg(e.Text())
@@ -610,7 +617,7 @@ func childMain() {
 	for gid, ps := range c.prods {
 		if gid >= len(spec.Prods) {
 			// lines logged before Start: optional, any form
-			fmt.Fprintf(w, "item %d %d %d 0 x u*%d\n", gid, itemKey(1, 4, 0), 4, preStart)
+			fmt.Fprintf(w, "item %d %d %d 0 x u*%d\n", gid, itemKey(1, 4, 0, false), 4, preStart)
 			ps.mu.Lock()
 			for _, p := range ps.paths {
 				fmt.Fprintln(w, p)
@@ -651,10 +658,10 @@ func childMain() {
 			a.segs = append(a.segs, key+"*1")
 		}
 		for _, r := range calls {
-			a := byItem[itemKey(r.item, r.lvl, r.variant)]
+			a := byItem[itemKey(r.item, r.lvl, r.variant, r.kind == 't' || r.kind == 'X')]
 			if a == nil {
 				a = &agg{first: r}
-				byItem[itemKey(r.item, r.lvl, r.variant)] = a
+				byItem[itemKey(r.item, r.lvl, r.variant, r.kind == 't' || r.kind == 'X')] = a
 				items = append(items, a)
 			}
 			addSeg(a, r.cfg, r.before)
@@ -670,7 +677,7 @@ func childMain() {
 					if op.Kind == "logf" {
 						v = 1
 					}
-					a := byItem[itemKey(op.Item, op.Lvl, v)]
+					a := byItem[itemKey(op.Item, op.Lvl, v, false)]
 					left := op.Reps
 					if a != nil {
 						left -= a.n
@@ -681,16 +688,19 @@ func childMain() {
 				case "tr":
 					// either submitted as one tracer line or (nil tracer) entry by entry: leave every entry optional
 					for _, e := range op.Entries {
-						if byItem[itemKey(e.Item, e.Lvl, 0)] == nil {
+						if byItem[itemKey(e.Item, e.Lvl, 0, false)] == nil {
 							pend = append(pend, callRec{item: e.Item, lvl: e.Lvl, org: op.Org, kind: 'x'})
 						}
 					}
+					if n := len(op.Entries); n > 0 && byItem[itemKey(op.Entries[n-1].Item, op.Entries[n-1].Lvl, 0, true)] == nil {
+						pend = append(pend, callRec{item: op.Entries[n-1].Item, lvl: op.Entries[n-1].Lvl, org: op.Org, kind: 'X'})
+					}
 				}
 				for _, r := range pend {
-					a := byItem[itemKey(r.item, r.lvl, r.variant)]
+					a := byItem[itemKey(r.item, r.lvl, r.variant, r.kind == 't' || r.kind == 'X')]
 					if a == nil {
 						a = &agg{first: r}
-						byItem[itemKey(r.item, r.lvl, r.variant)] = a
+						byItem[itemKey(r.item, r.lvl, r.variant, r.kind == 't' || r.kind == 'X')] = a
 						items = append(items, a)
 					}
 					addSeg(a, -1, false)
@@ -698,7 +708,7 @@ func childMain() {
 			}
 		}
 		for _, a := range items {
-			kind := string(a.first.kind)
+			kind := strings.ToLower(string(a.first.kind))
 			ent := ""
 			if a.first.kind == 't' {
 				var ids []string
@@ -707,7 +717,7 @@ func childMain() {
 				}
 				ent = " e" + strings.Join(ids, ",")
 			}
-			fmt.Fprintf(w, "item %d %d %d %d %s %s%s\n", gid, itemKey(a.first.item, a.first.lvl, a.first.variant), a.first.lvl, a.first.org, kind, strings.Join(a.segs, ","), ent)
+			fmt.Fprintf(w, "item %d %d %d %d %s %s%s\n", gid, itemKey(a.first.item, a.first.lvl, a.first.variant, a.first.kind == 't' || a.first.kind == 'X'), a.first.lvl, a.first.org, kind, strings.Join(a.segs, ","), ent)
 		}
 		for _, p := range paths {
 			fmt.Fprintln(w, p)
